@@ -14,7 +14,7 @@ RULE = ("random plain-data trees (depth <= 5, <= 40 leaves) over null/bool/int (
         "formats and options, and XML is decoded under every other root tag (must be rejected); out-of-domain "
         "(tree, format) pairs are skipped and counted; non-trivial = tree with >= 3 nodes in the domain of >= 2 "
         "formats; distinct = distinct tree")
-REQUIRED = ("documents_of_chosen_encoded_size", "trees_with_shared_late_objects", "second_decodes_after_mutation", "roundtrip:json", "roundtrip:yaml", "roundtrip:bson", "roundtrip:xml", "roundtrip:pickle",
+REQUIRED = ("encodes_after_a_failed_encode", "documents_of_chosen_encoded_size", "trees_with_shared_late_objects", "second_decodes_after_mutation", "roundtrip:json", "roundtrip:yaml", "roundtrip:bson", "roundtrip:xml", "roundtrip:pickle",
             "cross_format_comparisons", "option_comparisons", "xml_wrong_root_rejected")
 ASSUMPTIONS = ["domains are the ones stated in the property (XML: XML 1.0 characters without CR and keys that are "
                "XML names; BSON: signed 64-bit integers, keys without NUL), plus: no lone surrogates, integers "
@@ -74,6 +74,11 @@ def _count_nodes(v):
     if isinstance(v, list):
         return 1 + sum(_count_nodes(x) for x in v)
     return 1
+
+
+class _Unencodable:
+    def __reduce_ex__(self, proto):
+        raise TypeError("cannot serialise this")
 
 
 def _scramble(t, depth=0):
@@ -166,6 +171,39 @@ def run(case, ctx, res):
                 res.viol("M-options", fmt + ":option-changes-result", "%s vs %s: at %s %s" % (la, lb, d[0], d[2]))
         if per_opt:
             decoded[fmt] = per_opt[0][1]
+    # an encode that fails part-way (a value outside the format's domain somewhere in the tree) leaves nothing behind:
+    # the very same tree object, with the offending entry taken out again, still encodes and decodes
+    if isinstance(tree, dict) and decoded:
+        import copy as _copy
+
+        offending = {"bson": [2**70, -2**70, {"nul\x00key": 1}], "xml": ["nul\x00char", {"bad key": 1}], "json": [b"bytes", {1, 2}],
+                     "yaml": [_Unencodable()], "pickle": [_Unencodable(), lambda: 0]}
+        for fmt in sorted(decoded):
+            work = _copy.deepcopy(tree)
+            holders = [work] + [v for v in work.values() if isinstance(v, dict)]
+            for i, bad in enumerate(offending[fmt]):
+                holder = holders[i % len(holders)]
+                holder["zzbad"] = bad
+                codec = cc.ConfigFormat.get(fmt)
+                try:
+                    codec.dumps(cfg, work)
+                    failed = False
+                except Exception:
+                    failed = True
+                del holder["zzbad"]
+                if not failed:
+                    continue
+                res.count("encodes_after_a_failed_encode")
+                try:
+                    back = cc.ConfigFormat.get(fmt).loads(cfg, codec.dumps(cfg, work))
+                except Exception as exc:
+                    res.viol("M-roundtrip", fmt + ":raises-after-failed-encode", "%s: after an encode of this tree object failed (an "
+                             "unrepresentable value, removed again), encoding it raised %s: %s" % (fmt, type(exc).__name__, str(exc)[:120]))
+                    break
+                diff = trees.first_difference(tree, back)
+                if diff:
+                    res.viol("M-roundtrip", "%s:after-failed-encode:%s" % (fmt, diff[1]), "%s: at %s %s" % (fmt, diff[0], diff[2]))
+                    break
     names = sorted(decoded)
     for a, b in zip(names, names[1:]):
         res.count("cross_format_comparisons")
